@@ -161,15 +161,21 @@ CHECKS = [
              "A day with no present reading carries NaN/NaN counts; accepted as 'no counts' (it fails the coverage test either way).",
      "not_covered": ["15-minute feeds", "feeds whose offset is not a whole number of sampling intervals (outside the quantifier)"]},
     {"id": "C10", "level": "proof", "modules": ["contracts.C10_sufficiency"], "bounded": ["flow.C10_tables", "bounded.C10_boundary"],
-     "technique": "deductive verification of the threshold checks (pyvc, integer VCs, z3) + call-set / writer-set table obligations from the AST + bounded end-to-end verdicts at the thresholds",
+     "technique": "deductive verification of the threshold checks (integer VCs) and of the day counting / data-dependent checks on a row-wise model (pyvc, z3) + call-set / writer-set table obligations from the AST + bounded end-to-end verdicts at the thresholds",
      "text": "Proof: each day-count check of SufficiencyCriteria appends exactly its own disqualification iff its published criterion (span outside "
              "329-365; valid days / meter days / temperature days under 90% of the span, in integer arithmetic) and writes nothing else, for all "
              "day counts. Table obligations: the checks each criteria class invokes for baseline / reporting equal the published lists; each check "
-             "appends only to its published list; nothing else writes verdicts. Bounded (labelled so): real data classes on synthetic meters "
-             "exactly at every threshold, through both entry points.",
-     "note": "monthly coverage, negative values, no-data and the day counting itself (pandas group-bys, day_counts) are outside the symbolic part and "
-             "are decided by the bounded part only; known finding C10-offcycle-disqualifies",
-     "not_covered": ["hourly monthly-coverage verdicts are decided by the bounded part only", "billing period day counting"],
+             "appends only to its published list; nothing else writes verdicts. Row-wise proofs (one arbitrary row of an arbitrary sufficiency frame): "
+             "_compute_valid_meter_temperature_days counts each timestamp for the period up to the next one (elapsed days; the last row for nothing), "
+             "as valid usage iff the reading is present, as valid temperature iff more than 90 % of its readings are present, as valid iff both "
+             "(reporting: temperature only), and stores the rounded totals; no_data / negative usage (non-electric baselines only) are sound for the "
+             "row; the monthly coverage checks (temperature; hourly: usage for baselines, irradiance when supplied) test the share of present readings "
+             "per calendar month against < 0.9; the hourly sufficiency frame blanks each interpolated value by its own flag. Bounded (labelled so): real "
+             "data classes (daily, hourly) exactly at every threshold, frame edges, both entry points.",
+     "note": "group-by / sum aggregations enter as structural records (assumed pandas contracts); an unrecognised spelling of the monthly share is "
+             "UNDECIDED, a changed column / operator / threshold is a violation. The span (_compute_n_days_total) and the verdicts end to end are "
+             "decided by the bounded part only; known finding C10-offcycle-disqualifies",
+     "not_covered": ["_compute_n_days_total (first / last complete row) symbolically", "billing period day counting"],
      },
     {"id": "C03", "level": "other", "explanation": "seed contract proved for all seeds; ownership / frame obligations decided on the AST; history independence itself decided by bounded repeated fits (labelled bounded)", "modules": ["contracts.C03_seed"], "bounded": ["flow.C03_tables", "bounded.C03_repeat"],
      "technique": "deductive verification of the seed validator (pyvc, integer VCs, z3, counterexamples replayed) + ownership / frame obligations from the AST of the whole package + bounded repeated fits under different process histories",
